@@ -660,6 +660,14 @@ pub fn parse(pattern: &str) -> ParseOutcome {
     }
 }
 
+/// Parses a pattern of the supported subset (harness error otherwise).
+pub fn parse_supported(pattern: &str) -> Rx {
+    match parse(pattern) {
+        ParseOutcome::Ok(r) => r,
+        other => crate::run::harness_error(&format!("{:?} should be supported: {:?}", pattern, other)),
+    }
+}
+
 // ---------------------------------------------------------------------------------------------
 // Normal form used to compare a generated Rx with the parse of its printed form
 
